@@ -299,7 +299,12 @@ class SetAlgebra:
             return self.body(args, env)
         if name == "if" and len(args) == 3:
             t = args[0]
-            tv = ("seq", ev(t.items[1])) if L.head(t) in ("seq", "not-empty") else ("opaque", t.text())
+            if L.head(t) in ("seq", "not-empty"):
+                tv = ("seq", ev(t.items[1]))
+            elif L.head(t) in ("contains?", "="):
+                tv = ev(t)
+            else:
+                tv = ("opaque", t.text())
             return ("if", tv, ev(args[1]), ev(args[2]))
         if name == "get-in":
             m, path = ev(args[0]), args[1]
@@ -470,6 +475,19 @@ def r5_hierarchy_components_consistent(ctx):
         ctx.ob("C18.R5", f"{CORE}::derive::component updates", CORE, line, False, str(e), witness="(derive (derive (make-hierarchy) ::a ::b) ::b ::c), then (ancestors h ::a)")
     except Undecided as e:
         raise AnalysisError(f"C18.R5 cannot evaluate derive over the set algebra: {e}")
+    if res is not None and isinstance(res, tuple) and res[0] == "if":
+        # derive may hand the hierarchy back unchanged only when the edge is already *recorded*
+        # (parent in parents[tag]): then all three updates are no-ops.  Under any other test a declared
+        # edge would be missing from :parents, which underive rebuilds everything from.
+        tv, a, b = res[1], res[2], res[3]
+        recorded = ("test", "contains?", (_S(("all", ("lookup", Pm, tag))), parent))
+        unchanged = [x for x in (a, b) if x == ("sym", hn)]
+        full = [x for x in (a, b) if isinstance(x, tuple) and x and x[0] == "map"]
+        ok = len(unchanged) == 1 and len(full) == 1 and a == ("sym", hn) and tv == recorded
+        ctx.ob("C18.R5", f"{CORE}::derive::returns the hierarchy unchanged only when the edge is already recorded", CORE, line, ok,
+               "" if ok else "derive returns its argument unchanged under a test other than `parent is already one of tag's recorded parents`: a declared direct edge is not recorded, and after an underive that rebuilds from :parents the relationship is lost",
+               witness="(derive ::a ::b) (derive ::b ::c) (derive ::a ::c) (underive ::a ::b) then (isa? ::a ::c) must be true")
+        res = full[0] if full else None
     if res is not None:
         if not (isinstance(res, tuple) and res[0] == "map"):
             raise AnalysisError("C18.R5: derive does not end in a map literal")
@@ -695,6 +713,14 @@ SELFTEST = [
      "old": "                     (derive h (first pair) (second pair)))\n                   (make-hierarchy))))))", "new": "                     (derive h (first pair) (second pair)))\n                   (assoc h :parents new-parents))))))"},
     {"name": "descendants reads the wrong component", "file": CORE, "expect": "C18.R5",
      "old": "    (let [hierarchy-ancestors (get-in h [:descendants tag] #{})]", "new": "    (let [hierarchy-ancestors (get-in h [:ancestors tag] #{})]"},
+    {"name": "twin: derive short-circuits an edge that is already recorded", "file": CORE, "expect": None,
+     "old": "     {:parents     (as-> (get-in h [:parents tag] #{}) $\n                     (conj $ parent)\n                     (assoc (:parents h) tag $))\n",
+     "new": "     (if (contains? (get-in h [:parents tag] #{}) parent) h\n     {:parents     (as-> (get-in h [:parents tag] #{}) $\n                     (conj $ parent)\n                     (assoc (:parents h) tag $))\n",
+     "edits": [
+         {"file": CORE, "old": "     {:parents     (as-> (get-in h [:parents tag] #{}) $\n                     (conj $ parent)\n                     (assoc (:parents h) tag $))\n",
+          "new": "     (if (contains? (get-in h [:parents tag] #{}) parent) h\n     {:parents     (as-> (get-in h [:parents tag] #{}) $\n                     (conj $ parent)\n                     (assoc (:parents h) tag $))\n"},
+         {"file": CORE, "old": "                            (:descendants h)\n                            (conj parent-ancestors parent))})))", "new": "                            (:descendants h)\n                            (conj parent-ancestors parent))}))))"},
+     ]},
     {"name": "twin: derive written with into", "file": CORE, "expect": None,
      "old": "                              (->> (get ancestors descendant)\n                                   (apply conj parent-ancestors parent)\n                                   (set)\n                                   (assoc ancestors descendant)))",
      "new": "                              (assoc ancestors descendant\n                                     (into (conj parent-ancestors parent) (get ancestors descendant))))"},
